@@ -118,8 +118,32 @@ def tree_tokens(el) -> List[str]:
 # ---- hand-stepped event loop -----------------------------------------------------------------------
 
 class Sched:
+    """hand-stepped loop with a virtual clock: `step` runs one ready handle, `advance` lets (a lot of) time pass,
+    i.e. moves every timer the code under test registered (`call_later`, `wait_for`, `sleep`) to the ready queue"""
+
     def __init__(self) -> None:
         self.loop = asyncio.new_event_loop()
+        self.vt = 1000.0
+        self.loop.time = lambda: self.vt  # type: ignore[method-assign]
+        self.timers_fired = 0
+
+    def ntimers(self) -> int:
+        return sum(1 for h in self.loop._scheduled if not h._cancelled)  # type: ignore[attr-defined]
+
+    def advance(self, seconds: float = 86400.0) -> int:
+        import heapq
+
+        self.vt += seconds
+        sched = self.loop._scheduled  # type: ignore[attr-defined]
+        n = 0
+        while sched and sched[0]._when <= self.vt:
+            h = heapq.heappop(sched)
+            h._scheduled = False
+            if not h._cancelled:
+                self.loop._ready.append(h)  # type: ignore[attr-defined]
+                n += 1
+        self.timers_fired += n
+        return n
 
     def nready(self) -> int:
         return sum(1 for h in self.loop._ready if not h._cancelled)  # type: ignore[attr-defined]
@@ -296,6 +320,12 @@ def run_recipe(ctx: Ctx, recipe: Dict[str, Any], cid: str) -> Case:
                     prim(op)
             elif name == "run":
                 run_all()
+            elif name == "advance":
+                # a day passes with whatever is outstanding still outstanding; the model has no timers, so this is
+                # invisible to it — any handle that becomes ready here was put on a timer by the code under test
+                if sched.advance():
+                    tags.add("timers-fired")
+                run_all()
             elif name == "complete":
                 # ["complete", k, kind]: the k-th outstanding download (skipped when there is none)
                 out = outstanding()
@@ -310,7 +340,11 @@ def run_recipe(ctx: Ctx, recipe: Dict[str, Any], cid: str) -> Case:
             elif name == "uncache":
                 prim(op)
                 nontrivial = True
-        # closing phase: release everything, run to quiescence (bounded)
+        # closing phase: let a day pass while the downloads are still outstanding (slow device), then release
+        # everything and run to quiescence (bounded)
+        run_all()
+        if sched.advance():
+            tags.add("timers-fired")
         for _ in range(12):
             run_all()
             out = outstanding()
@@ -318,6 +352,9 @@ def run_recipe(ctx: Ctx, recipe: Dict[str, Any], cid: str) -> Case:
                 break
             prim(["complete", out[0], "ok1"])
         run_all()
+        if sched.advance():
+            tags.add("timers-fired")
+            run_all()
         tags.add("end:" + ("deadlock" if any(not t.done() for t in tasks) else "all-done"))
         tags.add(f"tasks:{len(tasks)}")
         tags.add(f"requests:{len(req.dls)}")
@@ -389,8 +426,10 @@ def rand_schedule(rng, n: int) -> List[List[Any]]:
             ops.append(["lookup", rng.choice([0, 0, 0, 1, 2])])
         elif c < 9:
             ops.append(["step"])
-        elif c < 11:
+        elif c < 10:
             ops.append(["run"])
+        elif c < 11:
+            ops.append(["advance"])
         elif c < 15:
             kind = rng.choice(["ok1", "ok2", "ok1", "ok2"] + list(KINDS))
             ops.append(["complete", rng.randrange(2), kind])
@@ -497,7 +536,7 @@ def generate(ctx: Ctx) -> List[Case]:
         jobs.append((f"r{i}", rand_schedule(rng, rng.randrange(4, 30))))
         i += 1
     # description-conversion stream: random documents through the cache (and the tree-level model)
-    for _ in range(12000 if big else 1500):
+    for _ in range(12000 if big else 1000):
         jobs.append((f"d{i}", doc_schedule(rng)))  # type: ignore[arg-type]
         i += 1
     if len(jobs) > 20000:
@@ -533,6 +572,8 @@ CORPUS: List[Dict[str, Any]] = [
     {"ops": [["lookup", 0], ["lookup", 0], ["run"], ["complete", 0, "gen0"], ["run"], ["lookup", 0], ["run"]],
      "docs": ['<root xmlns="urn:schemas-upnp-org:device-1-0"><device>mixed<UDN>uuid:x</UDN><icon a="1">t</icon>'
               '<icon/><icon> </icon></device></root>']},
+    # a slow device: time passes while A downloads and B waits (a waiter that gives up on a timer returns absence here)
+    {"ops": [["lookup", 0], ["lookup", 0], ["run"], ["advance"], ["complete", 0, "ok1"], ["run"], ["lookup", 0], ["run"]]},
     # two locations are independent
     {"ops": [["lookup", 0], ["lookup", 1], ["lookup", 0], ["lookup", 1], ["run"], ["complete", 1, "ok2"],
              ["complete", 0, "timeout"], ["run"]]},
